@@ -554,6 +554,28 @@ theorem registered_iff_inflight (cfg : Cfg) (ls : List (Label α)) (hopen : (run
       obtain ⟨s, hs, _, hm⟩ := h.reg r sid hc
       exact ⟨s, hs, hm⟩
 
+/-- **C02/C10 (an undeliverable response frees its id as well).**  Whatever becomes of the response — delivered, stored
+only, or dropped as undeliverable (`rejected`: POST exchange gone and no event store; `broken`: session closed) — the
+request's routing entry is gone after the write, so a later call may carry the id again. -/
+theorem undeliverable_response_unregisters (c : Conn α) (r : Nat) (p : α) (ctx : Option Nat) (ctxNew : Bool) :
+    ((writeR c (.resp r p) ctx ctxNew).2 = .rejected ∨ (writeR c (.resp r p) ctx ctxNew).2 = .broken →
+      (writeR c (.resp r p) ctx ctxNew).1.reqStreams r = none) ∧
+    (wrouteR c (.resp r p) ctx ctxNew).1.reqStreams r = none ∧
+    ∀ i, (wdeliverR c i).1.reqStreams = c.reqStreams := by
+  refine ⟨fun _ => response_unregisters c r p ctx ctxNew, ?_, ?_⟩
+  · unfold wrouteR
+    rw [if_neg (by simp [Msg.isCall])]
+    split
+    · simp [eraseResp]
+    · split <;> simp [eraseResp]
+  · intro i
+    unfold wdeliverR
+    split
+    · rfl
+    · split
+      · simp [writeTo]
+      · simp [orphanWrite]
+
 /-- the routing section of a response removes the routing entry of its request at once -/
 theorem response_unregisters_at_routing (c : Conn α) (r : Nat) (p : α) (ctx : Option Nat) (ctxNew : Bool) :
     (wrouteR c (.resp r p) ctx ctxNew).1.reqStreams r = none := by
